@@ -562,8 +562,11 @@ class Plugin:
             # all sources are requested all the way (including the final
             # Stopiteration), as required by lazy-mode processing requires
             for d in iters.keys():
-                if self._fetch_chunk(d, iters):
-                    raise RuntimeError(f"Plugin {d} terminated without fetching last {d}!")
+                buffer_end, buffer_len = self.input_buffer[d].end, len(self.input_buffer[d])
+                while self._fetch_chunk(d, iters):
+                    # Trailing zero-duration chunks add neither time nor data: nothing was missed
+                    if (self.input_buffer[d].end, len(self.input_buffer[d])) != (buffer_end, buffer_len):
+                        raise RuntimeError(f"Plugin {d} terminated without fetching last {d}!")
 
             # This can happen especially in time range selections
             if hasattr(self.save_when, "values"):
